@@ -14,14 +14,6 @@ static RefPlan::Kind parseKind(const std::string& s) {
   if (s == "STALE") return RefPlan::STALE;
   return RefPlan::VALID;
 }
-static const char* kindName(RefPlan::Kind k) {
-  switch (k) {
-    case RefPlan::ABS: return "ABS"; case RefPlan::SAME: return "SAME";
-    case RefPlan::INVALID: return "INVALID"; case RefPlan::LOST: return "LOST";
-    case RefPlan::STALE: return "STALE"; default: return "VALID";
-  }
-}
-
 void ClockDevice::configure(const std::vector<std::string>& toks) {
   if (toks.empty()) return;
   if (toks[0] == "REF") {
